@@ -1034,7 +1034,7 @@ MUTANTS += [
 # --- round 6 (DESIGN 8.12) and the repairs F57b, F61-F64 ---
 QS = 'internal/transferquic/quic.go'
 _ADDIF_MAPS = '\tif h.sessions[sessionID] == nil {\n\t\th.sessions[sessionID] = make(map[string]*peerConnection)\n\t}\n\tif h.byPeerID[sessionID] == nil {\n\t\th.byPeerID[sessionID] = make(map[string]string)\n\t}\n'
-_ENDWAIT = '\tselect {\n\tcase <-ackDone:\n\tcase <-time.After(endDeliveryWait):\n\tcase <-ctx.Done():\n\t}\n\treturn nil\n}\n'
+_ENDWAIT = '\tif totalFiles == 0 {\n\t\tselect {\n\t\tcase <-ackDone:\n\t\tcase <-time.After(endDeliveryWait):\n\t\tcase <-ctx.Done():\n\t\t}\n\t}\n\treturn nil\n}\n'
 _F57B = '\t\tif open < dataStreams {\n\t\t\tactiveCount++\n\t\t}\n\t\tstatsMu.Unlock()\n\t\tif open >= dataStreams {'
 MUTANTS += [
  # R-VALIDATOR-ALL-ITEMS
@@ -1078,7 +1078,7 @@ MUTANTS += [
  dict(id='F61-undo-end-delivery-wait', props=['C03'], expect='R-END-DELIVERED/end-delivered/',
       edits=[(MS, _ENDWAIT, '\treturn nil\n}\n')]),
  dict(id='F61-wait-on-timer-only', props=['C03'], expect='R-END-DELIVERED/end-delivered/',
-      edits=[(MS, _ENDWAIT, '\tselect {\n\tcase <-time.After(50 * time.Millisecond):\n\tcase <-ctx.Done():\n\t}\n\treturn nil\n}\n')]),
+      edits=[(MS, _ENDWAIT, '\tif totalFiles == 0 {\n\t\tselect {\n\t\tcase <-time.After(50 * time.Millisecond):\n\t\tcase <-ctx.Done():\n\t\t}\n\t}\n\treturn nil\n}\n')]),
  # F62
  dict(id='F62-undo-close-cancels-read', props=['C03'], expect='R-CLOSE-RELEASES/close-releases/',
       edits=[(QS, '\t(*s.stream).CancelRead(0)\n', '')]),
@@ -1103,7 +1103,7 @@ MUTANTS += [
  dict(id='R6-benign-close-cancels-after-close', props=['C03'], expect='SILENT',
       edits=[(QS, '\t(*s.stream).CancelRead(0)\n\tif err := (*s.stream).Close(); err != nil {\n\t\treturn fmt.Errorf("failed to close QUIC stream: %w", err)\n\t}\n', '\terr := (*s.stream).Close()\n\t(*s.stream).CancelRead(0)\n\tif err != nil {\n\t\treturn fmt.Errorf("failed to close QUIC stream: %w", err)\n\t}\n')]),
  dict(id='R6-benign-end-wait-with-timer-variable', props=['C03'], expect='SILENT',
-      edits=[(MS, '\tselect {\n\tcase <-ackDone:\n\tcase <-time.After(endDeliveryWait):\n\tcase <-ctx.Done():\n\t}\n\treturn nil\n}\n', '\tlinger := time.NewTimer(endDeliveryWait)\n\tdefer linger.Stop()\n\tselect {\n\tcase <-ackDone:\n\tcase <-linger.C:\n\tcase <-ctx.Done():\n\t}\n\treturn nil\n}\n')]),
+      edits=[(MS, _ENDWAIT, '\tif totalFiles == 0 {\n\t\tlinger := time.NewTimer(endDeliveryWait)\n\t\tdefer linger.Stop()\n\t\tselect {\n\t\tcase <-ackDone:\n\t\tcase <-linger.C:\n\t\tcase <-ctx.Done():\n\t\t}\n\t}\n\treturn nil\n}\n')]),
 ]
 
 # --- round 7 (DESIGN 8.14) ---
@@ -1120,4 +1120,19 @@ MUTANTS += [
              (MS, '\t\t\tCRC32: state.frameCount(),\n\t\t})\n\t\tcontrolWriteMu.Unlock()\n', '\t\t\tCRC32: state.frameCount(),\n\t\t})\n\t\tendWriteMu.Unlock()\n')]),
  dict(id='R7-cancel-in-phase-waiter', props=['C09'], expect='R-CANCEL-OWNER/cancel/ice.(*Prober).ProbeAndDial/dialCancel',
       edits=[(ICE, '\t\t\twg.Wait()\n\t\t\tclose(allDone)\n', '\t\t\twg.Wait()\n\t\t\tdialCancel()\n\t\t\tclose(allDone)\n')]),
+]
+
+# --- F66 ---
+PT = 'internal/app/progress_throttle.go'
+MUTANTS += [
+ dict(id='F66-undo-ticker-stop-signal', props=['C12', 'C03'], expect='R-TICKER-STOP/ticker-stop/',
+      edits=[(PT, '\t\tstopOnce.Do(func() { close(stop) })\n', '\t\tstopOnce.Do(func() {})\n')]),
+ dict(id='F66-undo-left-mark', props=['C12'], expect='R-FINISHED-WHILE-LEAVING/finished-while-leaving/marked',
+      edits=[(SS, '\t\tslot.left = true\n', '')]),
+ dict(id='F66-undo-done-while-leaving', props=['C12', 'C03'], expect='R-FINISHED-WHILE-LEAVING/finished-while-leaving/done',
+      edits=[(SS, '\tif state != nil && (s.active[peerID] == slot || finishedWhileLeaving) {', '\t_ = finishedWhileLeaving\n\tif state != nil && s.active[peerID] == slot {')]),
+ dict(id='F66-done-while-leaving-ignores-newer-slot', props=['C12'], expect='R-SLOTS/release/runTransfer/status',
+      edits=[(SS, 'finishedWhileLeaving := err == nil && slot.left && state != nil && s.active[peerID] == nil && state.Status == ReceiverStatusFailed', 'finishedWhileLeaving := err == nil && slot.left && state != nil && state.Status == ReceiverStatusFailed')]),
+ dict(id='F66-benign-end-wait-has-files-form', props=['C03', 'C02'], expect='SILENT',
+      edits=[(MS, '\tif totalFiles == 0 {\n\t\tselect {\n\t\tcase <-ackDone:', '\tif !(totalFiles > 0) {\n\t\tselect {\n\t\tcase <-ackDone:')]),
 ]
